@@ -95,16 +95,16 @@ def check_make_precise(ctx, r, rng, n_per):
             ctx.count(('mp', scale, bits(v)), True)
             if a != b:
                 nbad += 1
-                if nbad <= 3:
+                if nbad <= 1:
                     ctx.broken.append(dict(kind='correspondence', name='makePrecise scale=%r v=%r' % (scale, v),
                                            detail='PrecisionModel(%r).makePrecise(%r): model %s, implementation %s (%r); replay: echo "MP %s %s" | %s'
                                                   % (scale, v, a, b, unhex(b) if b.startswith('x') else b, hexd(scale), hexd(v), r.hexe)))
         if mo[len(lines) + i] != io[len(lines) + i]:
             nbad += 1
-            ctx.broken.append(dict(kind='correspondence', name='PrecisionModel(%r) members' % scale, detail='model %s implementation %s' % (mo[len(lines) + i], io[len(lines) + i])))
+            if not any(b['name'].startswith('PrecisionModel(') for b in ctx.broken): ctx.broken.append(dict(kind='correspondence', name='PrecisionModel(%r) members' % scale, detail='model %s implementation %s' % (mo[len(lines) + i], io[len(lines) + i])))
         # the scale the C API derives from the grid size is the correctly rounded 1/|g| (Python's / is the same IEEE division)
         gs = mo[2 * len(lines) + i].split()
-        if gs and gs[0] != hexd(1.0 / abs(g)):
+        if gs and gs[0] != hexd(1.0 / abs(g)) and not any(b['name'] == '1/|g|' for b in ctx.broken):
             ctx.broken.append(dict(kind='correspondence', name='1/|g|', detail='model %s python %s' % (gs[0], hexd(1.0 / abs(g)))))
     return n, nbad
 
@@ -140,7 +140,7 @@ def check_hot_pixel(ctx, r, rng, thorough):
                                                              expected='HotPixel::intersects = the closed segment meets the half-open pixel',
                                                              replay='echo "%s" | %s' % (ln.replace('HPH', 'HP'), r.hexe)),
                                   msg='HotPixel::intersects(%s) = %s but the exact class says %s' % (ln, b, a[2]))
-                else:
+                elif not any(b['name'].startswith('HotPixel ') for b in ctx.broken):
                     ctx.broken.append(dict(kind='correspondence', name='HotPixel ' + ln, detail='model (generated, hand, exact) %s implementation %s' % (a, b)))
     return len(lines) + len(half), nbad, ntrue
 
@@ -380,6 +380,163 @@ def keep_collapsed(ctx, r, cases):
     return res
 
 
+
+# ------------------------------------------------------------------ 4. precision histories followed by an overlay
+HIST_OPS = {'INT': 1, 'UNI': 2, 'DIF': 3, 'SYM': 4}
+
+
+def gen_histories(rng, n):
+    out = []
+    for i in range(n):
+        A = L.gen_geom(rng, rng.choice(['A', 'A', 'A', 'L', 'MA', 'P', 'ML']), rng.choice([4, 8, 12]))
+        B, lab = L.derive(rng, A, 8)
+        if B[0] == 'GC' or A[0] == 'GC':
+            B, lab = L.gen_geom(rng, rng.choice(['A', 'L', 'MA']), 8), 'independent'
+        if rng.random() < 0.35:
+            f = L.full_precision_map(rng); A, B = L.map_pts(A, f), L.map_pts(B, f)
+        ext = extent_of([A, B])
+        u = ext * rng.choice([1e-3, 0.01, 0.03, 0.1]) * rng.choice([1.0, 1.0, 0.7, 1.3])
+        if rng.random() < 0.4: u = 2.0 ** round(math.log2(u)) if rng.random() < 0.5 else 10.0 ** round(math.log10(u))
+        kind = rng.choice(['coarse-finer-nondivisor', 'coarse-finer-nondivisor', 'finer-coarser', 'equal', 'divisor', 'three-steps'])
+        grids = {'coarse-finer-nondivisor': [u, u * 0.3], 'finer-coarser': [u * 0.3, u], 'equal': [u, u], 'divisor': [u, u * 0.5],
+                 'three-steps': [u, u * 0.3, u * rng.choice([0.7, 2.0, 0.3])]}[kind]
+        while not all(resolvable(g, [A, B]) for g in grids): grids = [g * 16 for g in grids]
+        flags = [rng.choice([0, 0, 1, 2, 3]) for _ in grids]
+        if rng.random() < 0.3: flags = [rng.choice([0, 1, 2])] * len(grids)
+        op = rng.choice(['INT', 'UNI', 'DIF', 'SYM', 'INT', 'UNI', '-'])
+        out.append(dict(A=A, B=B, grids=grids, flags=flags, op=op, kind=kind, label=lab))
+    return out
+
+
+def hist_line(hc):
+    return 'HIST %d %s %s | %s | %s' % (len(hc['grids']), ' '.join('%s %d' % (hexd(g), f) for g, f in zip(hc['grids'], hc['flags'])), hc['op'],
+                                      L.text_hex(hc['A']), L.text_hex(hc['B']))
+
+
+def check_histories(ctx, r, hists, d):
+    """every step of a history is a setPrecision call on the previous result: the same clauses as a single call, plus
+    getPrecision = the grid asked for (a clause of the property: later operations take their grid from it); the final plain
+    overlay of the two reduced operands must be on the last grid, valid, near the Boolean combination, and report that grid"""
+    outs = r.par([r.hexe], [hist_line(h) for h in hists], timeout=300, chunk=8)
+    items = []          # one per step / overlay: dict(hc, kind, g, flags, prev, res, valid_impl, prec, B)
+    for hc, o in zip(hists, outs):
+        hc['out'] = o
+        if not o.startswith('OK'): continue
+        cur = {0: hc['A'], 1: hc['B']}
+        try:
+            for part in o.split(' ;; ')[1:]:
+                t = part.split()
+                if t[0] == 'S':
+                    w, i = int(t[1]), int(t[2]); geom, _ = L.parse_tokens(t[5:])
+                    items.append(dict(hc=hc, kind='step', who=w, i=i, g=hc['grids'][i], flags=hc['flags'][i], prev=cur[w], res=geom, gv=t[3] == 'v=1', prec=t[4][3:]))
+                    cur[w] = geom
+                else:
+                    geom, _ = L.parse_tokens(t[3:])
+                    items.append(dict(hc=hc, kind='overlay', g=hc['grids'][-1], flags=0, prev=cur[0], B=cur[1], res=geom, gv=t[1] == 'v=1', prec=t[2][3:]))
+        except Exception:
+            hc['out'] = 'UNPARSABLE ' + o[:150]
+    # inputs of each item must be valid by the exact model (pointwise steps accept anything)
+    need = []
+    for it in items:
+        try:
+            gs = [it['prev']] + ([it['B']] if it['kind'] == 'overlay' else []) + [it['res']]
+            it['ints'], it['par'], it['G'] = scaled(gs, it['g'])
+        except ValueError:
+            it['ints'] = None; continue
+        need += it['ints'][:-1]
+    r.model_valid(need)
+    # grid clause and reported precision through the binary64 model
+    mpl, own = [], []
+    for it in items:
+        vs = sorted({v for p in L.all_pts(it['res']) for v in p}, key=bits)
+        it['offgrid'] = []
+        if vs: mpl.append('MP %s %s' % (hexd(1.0 / abs(it['g'])), ' '.join(hexd(v) for v in vs))); own.append((it, vs))
+    for (it, vs), o in zip(own, r.par([r.drv], mpl, chunk=16)):
+        it['offgrid'] = [v for v, b in zip(vs, o.split()) if b.rstrip('!') != hexd(v)]
+    for it, o in zip(items, r.par([r.drv], ['GRID ' + hexd(it['g']) for it in items], chunk=64)):
+        it['prec_model'] = o.split()[1][1:] if len(o.split()) == 2 else None
+    pw, pown = [], []
+    for it in items:
+        if it['kind'] == 'step' and (it['flags'] & 1):
+            vs = [v for p in L.all_pts(it['prev']) for v in p]
+            if vs: pw.append('MP %s %s' % (hexd(1.0 / abs(it['g'])), ' '.join(hexd(v) for v in vs))); pown.append(it)
+            else: it['pw_model'] = it['prev']
+    for it, o in zip(pown, r.par([r.drv], pw, chunk=16)):
+        vals = iter(unhex(b.rstrip('!')) for b in o.split())
+        it['pw_model'] = L.map_pts(it['prev'], lambda p: (next(vals), next(vals)))
+    lines, own = [], []
+    for it in items:
+        if it['ints'] is None or (it['kind'] == 'step' and (it['flags'] & 1)): continue
+        if it['kind'] == 'overlay':
+            op = HIST_OPS[it['hc']['op']]; A, B, R = it['ints']; mode = 'V'
+        else:
+            op = 2; A, R = it['ints']; B = GC_EMPTY; mode = 'N' if it['flags'] == 2 else 'V'
+        it['chk'] = 'PCHK %s %d %d %d %d %d %s %s %s' % ((mode, op) + it['par'] + (L.text_int(A), L.text_int(B), L.text_int(R)))
+        lines.append(it['chk']); own.append(it)
+    for it, o in zip(own, r.par([r.drv], lines, timeout=900, chunk=8)):
+        it['verdict'] = o
+    # verdicts
+    fails = []
+    seen_bad = set()
+    for it in items:
+        hc = it['hc']
+        if id(hc) in seen_bad: continue           # a later step of a history that already failed is not an independent failure
+        if it['ints'] is None: continue
+        inputs_valid = all(r.valid_cache.get(L.text_int(g)) == '1' for g in it['ints'][:-1])
+        pointwise = it['kind'] == 'step' and (it['flags'] & 1)
+        if not inputs_valid and not pointwise:
+            d['skipped']['history step on an input that is not valid'] = d['skipped'].get('history step on an input that is not valid', 0) + 1
+            seen_bad.add(id(hc)); continue
+        key = 'HIST-' + (it['kind'] if it['kind'] == 'overlay' else 'step%d' % it['flags'])
+        d['call'][key] = d['call'].get(key, 0) + 1
+        d['history_kinds'][hc['kind']] = d['history_kinds'].get(hc['kind'], 0) + 1
+        ctx.count(('hist', hist_line(hc), it['kind'], it.get('who'), it.get('i')), True)
+        why = None
+        if it['offgrid']:
+            why = ('grid', 'ordinates of the result that are not fixed points of makePrecise at grid %r: %s' % (it['g'], ', '.join(repr(v) for v in it['offgrid'][:4])))
+        elif it['prec_model'] and it['prec'] != it['prec_model']:
+            why = ('precision', 'GEOSGeom_getPrecision_r of the result is %r, the grid asked for is %r (1/scale = %r)' % (unhex('x' + it['prec']), it['g'], unhex('x' + it['prec_model'])))
+        elif pointwise:
+            if L.text_hex(it['res']) != L.text_hex(it['pw_model']):
+                why = ('pointwise-empties' if strip_empties(it['res']) == strip_empties(it['pw_model']) else 'pointwise', 'pointwise step differs from map makePrecise over the tree')
+        else:
+            v = it.get('verdict', 'MISSING')
+            must_valid = not (it['kind'] == 'step' and it['flags'] == 2)
+            if v.startswith('0'):
+                f = dict(kv.split('=', 1) for kv in v.split()[1:] if '=' in kv)
+                cl = ([] if not (f.get('valid') == '0' and must_valid) else ['valid']) + (['sides-2g'] if f.get('sides') else []) + (['verts-2g'] if f.get('verts') else [])
+                if cl: why = ('+'.join(cl), 'checker rejects the result: ' + v[:200])
+            elif not v.startswith('1'):
+                why = ('checker', v[:200])
+            if why is None and must_valid and not it['gv']:
+                why = ('valid', 'GEOSisValid_r rejects the result')
+        if why:
+            if why[0] != 'precision': seen_bad.add(id(hc))      # a wrong reported precision does not excuse the later steps / the overlay
+            fails.append((it, why))
+    for hc in hists:
+        if hc['out'].startswith(('EXC', 'CRASH', 'TIMEOUT', 'UNPARSABLE')):
+            # never fails: only for histories whose every step input was valid (EXC names the step)
+            allv = all(r.valid_cache.get(L.text_int(g)) == '1' for it in items if it['hc'] is hc and it['ints'] for g in it['ints'][:-1])
+            (Ai, Bi), _e = L.scale_case([hc['A'], hc['B']])
+            r.model_valid([Ai, Bi])
+            if allv and all(r.valid_cache.get(L.text_int(g)) == '1' for g in (Ai, Bi)) and all(f == 0 or f == 2 for f in hc['flags']):
+                fails.append((dict(hc=hc, kind='history', res=None), ('never-fails', hc['out'][:200])))
+    return fails
+
+
+def report_hist(ctx, r, it, why, name):
+    hc = it['hc']
+    obj = dict(clause=why[0], why=why[1], history=dict(grids=[repr(g) for g in hc['grids']], flags=hc['flags'], then=hc['op'], kind=hc['kind'],
+                                                      A=L.to_wkt(hc['A']), B=L.to_wkt(hc['B'])),
+               failing=dict(kind=it['kind'], operand=it.get('who'), step=it.get('i'), input=(L.to_wkt(it['prev']) if it.get('prev') is not None else None),
+                            implementation_output=(L.to_wkt(it['res']) if it.get('res') is not None else hc['out'])),
+               expected='every step: getPrecision = grid asked for; ordinates fixed points of makePrecise(grid); valid (default mode); pointwise = map makePrecise; '
+                        'near the previous geometry within 2g; the plain overlay of the reduced operands is on the last grid, valid and near the Boolean combination',
+               harness_line=hist_line(hc), replay='echo "%s" | %s' % (hist_line(hc), r.hexe))
+    if it.get('chk'): obj['checker_line'] = it['chk']
+    ctx.violation(name, obj, msg='%s: history %s then %s: %s' % (why[0], hc['kind'], hc['op'], why[1][:200]))
+
+
 def run(ctx):
     ctx.cov['rule'] = ('evaluations = makePrecise values compared bit for bit + hot pixel configurations + operation calls decided by the checker; '
                        'non-trivial = every makePrecise value and hot pixel configuration, and operation calls on non-empty inputs whose grid size '
@@ -437,12 +594,29 @@ def run(ctx):
         if nviol < 6:
             nviol += 1
             report(ctx, r, c, clause, text, 'case_%d' % i)
-    # reported precision against the model
-    setp = [c for c in cases if c.call == 'SETP' and c.prec]
+    # reported precision: GEOSGeom_getPrecision_r of a setPrecision result is the grid asked for (1.0 / scale of PrecisionModel(1.0 / |g|)).
+    # A clause of the property (later operations take their grid from it), decided with the binary64 model
+    setp = [c for c in cases if c.call == 'SETP' and c.prec and classify(ctx, r, c) is None]
     for c, o in zip(setp, r.par([r.drv], ['GRID ' + hexd(c.g) for c in setp], chunk=64)):
         exp = o.split()[1][1:] if len(o.split()) == 2 else None
-        if exp and c.prec != exp and nviol < 6:
-            ctx.broken.append(dict(kind='correspondence', name='GEOSGeom_getPrecision_r', detail='grid %r: implementation %s model %s' % (c.g, c.prec, exp)))
+        if exp and c.prec != exp:
+            d['failed']['precision'] = d['failed'].get('precision', 0) + 1
+            if nviol < 6:
+                nviol += 1
+                report(ctx, r, c, 'precision', 'GEOSGeom_getPrecision_r of the result is %r, the grid asked for is %r' % (unhex('x' + c.prec), c.g), 'prec_%d' % nviol)
+    # precision histories followed by a plain overlay
+    d['history_kinds'] = {}
+    nh = {}
+    hists = corpus_histories() + gen_histories(rng, 60 if ctx.quick else 600)
+    for it, why in check_histories(ctx, r, hists, d):
+        d['failed']['hist-' + why[0]] = d['failed'].get('hist-' + why[0], 0) + 1
+        kc = 'pointwise-empty-elements' if why[0] == 'pointwise-empties' else None
+        kf = ctx.known_match(lambda k: k.get('key', {}).get('class') == kc) if kc else None
+        if kf:
+            known.setdefault(kf['id'], (kf, Case('SETP', it['g'], it['prev'], flags=it['flags'], family='history'))); continue
+        nh[why[0]] = nh.get(why[0], 0) + 1
+        if nh[why[0]] <= 2:
+            report_hist(ctx, r, it, why, 'hist_%s_%d' % (why[0], nh[why[0]]))
     # KEEP_COLLAPSED
     nk = 0
     for c, col, o in keep_collapsed(ctx, r, cases):
@@ -465,12 +639,15 @@ def run(ctx):
     dist['operations'] = d
     ctx.notes['distribution'] = dist
     for c in cases[:3]: ctx.sample(json.dumps(c.describe())[:300])
-    for k in list(OPS) + ['UUP', 'SETP0', 'SETP1', 'SETP2', 'SETP3']:
+    for k in list(OPS) + ['UUP', 'SETP0', 'SETP1', 'SETP2', 'SETP3', 'HIST-step0', 'HIST-step1', 'HIST-step2', 'HIST-overlay']:
         if d['call'].get(k, 0) == 0:
             ctx.broken.append(dict(kind='generator', name='distribution', detail='no evaluated call ' + k))
     if nk == 0:
         ctx.broken.append(dict(kind='generator', name='distribution', detail='no KEEP_COLLAPSED case with a fully collapsed element'))
-    ctx.log('operations: %s' % json.dumps({k: d[k] for k in ('call', 'failed', 'skipped', 'grid_over_extent', 'keep_collapsed_cases')}))
+    for k in ('coarse-finer-nondivisor', 'finer-coarser', 'equal'):
+        if d['history_kinds'].get(k, 0) == 0:
+            ctx.broken.append(dict(kind='generator', name='distribution', detail='no evaluated history of kind ' + k))
+    ctx.log('operations: %s' % json.dumps({k: d[k] for k in ('call', 'failed', 'skipped', 'grid_over_extent', 'keep_collapsed_cases', 'history_kinds')}))
 
 
 def report(ctx, r, c, clause, text, name):
@@ -480,6 +657,21 @@ def report(ctx, r, c, clause, text, name):
                harness_line=c.line(), replay='echo "%s" | %s' % (c.line(), r.hexe))
     if getattr(c, 'chk', None): obj['checker_line'] = c.chk
     ctx.violation(name, obj, msg='%s: %s %s' % (clause, c.call, text[:200]))
+
+
+def corpus_histories():
+    p = os.path.join(ROOT, 'gen/corpus/C04_hist.txt')
+    out = []
+    if os.path.exists(p):
+        for l in open(p):
+            l = l.strip()
+            if not l or l.startswith('#'): continue
+            parts = [x.strip() for x in l.split('|')]
+            head = parts[0].split(); k = int(head[1])
+            gs = [L.parse_tokens(x.split())[0] for x in parts[1:]]
+            out.append(dict(A=gs[0], B=gs[1], grids=[float(head[2 + 2 * i]) for i in range(k)], flags=[int(head[3 + 2 * i]) for i in range(k)],
+                            op=head[2 + 2 * k], kind='corpus', label='corpus'))
+    return out
 
 
 def corpus_cases():
